@@ -188,7 +188,7 @@ def run(ctx):
                 e = N(e)
                 if isinstance(e, tuple) and e[0] == "bin" and e[1] == "Add":
                     for a, b in ((e[2], e[3]), (e[3], e[2])):
-                        if is_const(a) and isinstance(b, tuple) and b[0] == "fld" and b[2] == "offset" and row.local_names().get(l) == "header_offset":
+                        if is_const(a) and isinstance(b, tuple) and b[0] == "fld" and b[2] == "offset" and (row.local_names().get(l) == "header_offset" or (skip is None and row.local_names().get(l))):
                             skip = a[1]
                 if row.local_names().get(l) == "subrow_offset":
                     flds = {t[2] for t in walk(e) if isinstance(t, tuple) and t[0] == "fld"}
@@ -211,6 +211,16 @@ def run(ctx):
                         adds = [t for t in walk(a) if isinstance(t, tuple) and t[0] == "bin" and t[1] == "Add"]
                         if "offset" in flds and has_row and adds:
                             ok = True
+        if not ok:
+            # the sub-row reader written as a private fn (inlined into read_row here) instead of a closure
+            from ..prov import derive as _derive, index_of as _index_of
+
+            rix_ = _index_of(row)
+            for _bi, t_ in row.calls():
+                if (t_.get("res") or "").endswith("Seek>::seek") and len(t_["args"]) == 2:
+                    d_ = _derive(rix_, t_["args"][1])
+                    if {"column_definitions", "offset"} <= d_.names and "Add" in d_.ops and ("data_offsets" in d_.names or "row_id" in d_.names or any(c_.split("::")[-1] == "find" for c_ in d_.calls)):
+                        ok = True
         ctx.ob("SEEK", "column-seek", ok, "each cell is read at row_offset + column.offset", row.file, row.line)
     if rb:
         ok = False
@@ -244,7 +254,10 @@ def run(ctx):
                     if pl is not None:
                         caps.append(pl["ty"])
         mut_caps = [c for c in caps if c.startswith("&mut ")]
-        ctx.ob("STATELESS", "row-closure-captures", len(mut_caps) == 1 and "Cursor" in mut_caps[0], f"the per-sub-row closure captures mutable state {mut_caps}; only the cursor may be captured mutably", row.file, row.line)
+        # no closure at all: the sub-row reader is a private fn (inlined here); it can only receive state as arguments,
+        # and read_column's own parameters are checked above
+        no_closure_form = not mut_caps and any((t_.get("res") or "").endswith("EXD::read_column") for _bi, t_ in row.calls())
+        ctx.ob("STATELESS", "row-closure-captures", (len(mut_caps) == 1 and "Cursor" in mut_caps[0]) or no_closure_form, f"the per-sub-row closure captures mutable state {mut_caps}; only the cursor may be captured mutably", row.file, row.line)
         statics = [c for c in prog.consts.values() if c["path"].startswith("exd::") and ("Cell" in c["ty"] or "Mutex" in c["ty"] or "Atomic" in c["ty"])]
         ctx.ob("STATELESS", "no-interior-mutable-statics", not statics, f"interior-mutable statics in exd: {[c['path'] for c in statics]}", row.file, row.line, trivial=True)
 
